@@ -37,6 +37,16 @@ def variables(n, resolve=None):
 
 def evaluate(n, env, width=32, resolve=None, depth=0):
     """value of expression n with env: access path -> int.  Raises NotPure for calls, assignments, unknown paths."""
+    if n is not None and n.k == "CStyleCastExpr":
+        from widen import INT_TYPES
+        v = evaluate(n.c[0], env, width, resolve, depth)
+        t = INT_TYPES.get((n.get("toty") or "").replace("const ", "").strip())
+        if t is not None:
+            bits, signed = t
+            v &= (1 << bits) - 1
+            if signed and v >= 1 << (bits - 1):
+                v -= 1 << bits
+        return v
     n = strip_casts(n)
     if n is None:
         raise NotPure("empty")
